@@ -26,7 +26,18 @@ TRUSTED = [
 ]
 
 
+def _replay_seed(ctx):
+    """--replay <file>: the generators are deterministic in (seed, tier, n); re-run with the seed and tier recorded in the
+    replay file's name so that the failing input is derived again (the file itself holds the input in readable form)."""
+    import re
+    if ctx.replay:
+        m = re.search(r"-(quick|thorough)-(\d+)\.json$", ctx.replay)
+        if m:
+            ctx.tier, ctx.seed = m.group(1), int(m.group(2))
+
+
 def run(ctx):
+    _replay_seed(ctx)
     proofs = vf.coq_props(ctx, "C14")
     broken, failures = [], []
     aok, aout = vf.audit()
@@ -42,7 +53,7 @@ def run(ctx):
             broken.append("coqchk rejects Props/C14.vo: " + cout[-800:])
     if not proofs["ok"]:
         broken.append("proof obligations of Props/C14.v do not check: %s" % (proofs.get("broken_files") or proofs.get("nonstd_axioms") or proofs["log"][-800:]))
-    n = ctx.n(14, 300)
+    n = ctx.n(14, 120)
     hr = vf.go_harness(ctx, "gitindex", "TestVerifC14$", ["gitindex/zz_verif_c14_test.go"], n,
                        timeout=900 if ctx.tier == "quick" else 5400)
     recs = hr["records"]
